@@ -86,6 +86,13 @@ Theorem C03_unchecked_assertions_classified :
 Proof. exact unchecked_assertions_classified. Qed.
 Print Assumptions C03_unchecked_assertions_classified.
 
+(* Table theorem 3 (regenerated on every check): the parser's context counters (loopDepth) are
+   raised and lowered symmetrically, with no return in between, in every function of parser.go. *)
+Theorem C03_context_counters_balanced :
+  forallb counter_ok counter_sites = true /\ has_loop_depth = true.
+Proof. exact context_counters_balanced. Qed.
+Print Assumptions C03_context_counters_balanced.
+
 (* The model's token numbers and keyword table are those of lexer/token.go (regenerated). *)
 Theorem C03_token_numbers_agree : gen_tokens = model_tokens.
 Proof. exact token_numbers_agree. Qed.
